@@ -137,6 +137,7 @@ type Gen struct {
 	loopHeadState map[*ssa.BasicBlock]*State
 	rangeVisited map[*ssa.Range]string
 	frameDone bool
+	allocOrder map[*ssa.Alloc]int
 	inputReads []inputRead
 	rets      []retRecord
 	frameAll  bool
